@@ -10,5 +10,9 @@ import pitcs_common as pc
 
 
 def run(R):
-    pc.run_family(R, "C07", modes=["cs", "mix", "fw"], n_quick=240, n_thorough=9000)
+    pc.run_family(R, "C07", modes=["cs", "mix", "fw"], n_quick=600, n_thorough=15000)
     return R.finish()
+
+
+def replay(R, path):
+    return pc.replay(R, "C07", path)
